@@ -1131,6 +1131,7 @@ pub fn decode_iter(g: &mut Gen) -> IterCase {
         f_eta,
         x: g.simplex(n, 1e-3),
         lambda: g.log_range(1e-3, 1e3),
+        no_t_floor: false,
     };
     let ig = (0..n).map(|_| g.index(POOLS.dippr.len())).collect();
     let kind = g.index(5) as u8;
